@@ -32,18 +32,7 @@ Fixpoint goodb (fuel : nat) (es : estate) (b : N) : bool :=
   end.
 Definition good (es : estate) (b : N) : bool := goodb (S (length (e_blocks es))) es b.
 
-(* executing the accepted chain from the sync target [t] to the tip *)
-Fixpoint after (t : N) (l : list N) : list N :=
-  match l with
-  | [] => []
-  | x :: r => if x =? t then r else after t r
-  end.
-Fixpoint exec_chain (prev : N) (l : list N) : list event :=
-  match l with
-  | [] => []
-  | b :: r => [EVerify prev b true; NVerified b; EAccept (Some prev) b; NAccepted b] ++ exec_chain b r
-  end.
-
+(* [after], [exec_chain]: Model/Snow.v *)
 Definition ple (es : estate) (x y : N * N) : bool :=
   (e_height es (fst x) <? e_height es (fst y)) || ((e_height es (fst x) =? e_height es (fst y)) && (fst x <=? fst y)).
 Fixpoint pins (es : estate) (x : N * N) (l : list (N * N)) : list (N * N) :=
